@@ -1450,6 +1450,20 @@ int __wrap_fiber_spinlock_unlock(void* l) {
   }
   return __real_fiber_spinlock_unlock(l);
 }
+/* C02 idle clause, literal reading: called when a kernel thread is about to block in epoll_wait.  If every
+ * other kernel thread is already parked there and a fiber that is not in the middle of saving its context
+ * sits in a run queue, "all idle while a runnable fiber is queued" holds at this instant.  Reach probe only:
+ * the entry is not lost unless it stays there (that is what sim_check_quiescent and the idle budget decide). */
+void ghost_idle_probe(void) {
+  if (!fiber_mode) return;
+  for (int i = 0; i < nthr; i++)
+    if (i != me && T[i].is_fiber_thread && T[i].st != ST_EPOLL && T[i].st != ST_EXIT) return;
+  for (int i = 0; i < ng; i++)
+    if (G[i].inq && G[i].g != G_RUNNING && glue_fiber_state(G[i].f) != 5) {
+      sim_probe("all_idle_with_runnable_fiber_queued", 1);
+      return;
+    }
+}
 int sim_pending_total(void) {
   int n = 0;
   for (int i = 0; i < ng; i++) n += G[i].pend;
